@@ -15,7 +15,7 @@ EXPLANATION = (
     'EffectId overflow, the unreachable after the discriminant test, and the documented panic on an id that names no outstanding request '
     '(outside the property\'s input domain); R12.e both bincode deserialisers are built with from_slice, whose length prefixes are '
     'checked against the remaining input; R12.f errors that blame the input (DeserializeEvent, DeserializeOutput, ProcessResponse) are produced only '
-    'before any call that can enter the core, so a rejected input has not been applied. Panics, hangs or allocation inside user Deserialize impls and serde_json are not decided. R12.c resume() touches only the addressed entry and frees it only when it can no longer be resolved, and every effect — notifications included — is announced under the slab key of its own entry, so a stray response never meets another request (shared with C09 R09.a/b).')
+    'before any call that can enter the core, so a rejected input has not been applied. Panics, hangs or allocation inside user Deserialize impls and serde_json are not decided. R12.c resume() touches only the addressed entry and frees it only when it can no longer be resolved, and every effect — notifications included — is announced under the slab key of its own entry, so a stray response never meets another request (shared with C09 R09.a/b). R12.i the wire types decoded from shell input derive their serde impls and carry only wire-neutral attributes: no conversion code of crux\'s own runs inside deserialisation (shared with C10).')
 
 BOUNDARY_ERRORS = ('crux_core::bridge::BridgeError', 'erased_serde::error::Error', 'crux_core::core::resolve::ResolveError',
                    'bincode::error::ErrorKind', 'alloc::boxed::Box<bincode::error::ErrorKind>')
@@ -198,6 +198,16 @@ def check(ctx, rep):
     # aborted flags are written only by the abort handles (the root task shares its command's flag: flagging an evicted task would cancel
     # the sibling requests of the command as well) (shared with C06 R06.i)
     c06.check_flag_ownership(rep, core, rid='R12.g')
+    # R12.i: decoding shell input runs no hand-written code of crux's own: every wire type derives its serde impls and carries only
+    # wire-neutral attributes — a `#[serde(from = ..)]` / `deserialize_with` conversion runs INSIDE the bridge's deserialisation, under the
+    # registry lock, and a panic there (a checked constructor on an out-of-range field) poisons the lock for every later call (shared with
+    # C10 R10.a-c; seeded: Instant deserialised through a repr whose From calls the panicking Instant::new)
+    from rules.props import c10 as _c10
+    rep.rule('R12.i', 'wire types decoded from shell input derive their serde impls and carry only wire-neutral attributes (no conversion code runs while decoding)', floor=15)
+    if ctx.crate('controls', 'crux_verif_controls') is None:
+        rep.missing('R12.i', 'probe crate facts (controls configuration)')
+    else:
+        _c10.check_wire_types(ctx, _c10.RuleProxy(rep, 'R12.i', lambda key: True))
     # R12.d
     used = set()
     for f in fns:
